@@ -73,7 +73,18 @@ fn probe_body(magic: i32) -> Vec<Ins> {
 /// instruction indices of function `fi` that may carry `mode`
 fn candidates(info: &FuncInfo, body: &[Ins], mode: Mode) -> Vec<u32> {
     match mode {
-        Mode::Before | Mode::After | Mode::Alternate => info.plains.iter().map(|p| p.idx).collect(),
+        Mode::Alternate => info.plains.iter().map(|p| p.idx).collect(),
+        Mode::Before | Mode::After => {
+            // plain instructions (judged by their anchors and by virtual events) and, judged by virtual
+            // events only, branches and explicit exits: before = about to execute, after = completed
+            // without branching away (never, for br / br_table / unreachable / throw)
+            let mut v: Vec<u32> = info.plains.iter().map(|p| p.idx).collect();
+            v.extend(info.plains.iter().map(|p| p.idx));
+            v.extend(info.branches.iter().map(|b| b.idx));
+            v.extend(info.unreachables.iter().map(|u| u.0));
+            v.extend(info.caught_throws.iter().map(|u| u.0));
+            v
+        }
         Mode::BlockEntry | Mode::BlockExit => {
             let mut v: Vec<u32> = info.constructs.iter().map(|c| c.opener).collect();
             v.extend(info.constructs.iter().filter_map(|c| c.else_idx));
@@ -363,6 +374,8 @@ fn virt_rule(o: &RunOut, t: &RunOut, kind: u8, li: usize, pc: u32, p: &Ev, what:
         match kind {
             crate::interp::V_ENTER => "entered",
             crate::interp::V_FALL => "fell through",
+            crate::interp::V_EXEC => "was about to execute",
+            crate::interp::V_DONE => "completed",
             _ => "reached the instruction after",
         },
         exp.len(),
@@ -497,7 +510,12 @@ pub fn judge_exec(id: &str, sc: &Scenario, stats: &mut ExecStats) -> (Judged, Ru
             .zip(args.iter())
             .map(|(t, v)| if *t == crate::ins::VT::I32 { Val::I32(*v as i32) } else { Val::I64(*v) })
             .collect();
-        let o = crate::interp::run_export_virt(&orig_mod, name, vals.clone(), plan.tape.clone(), plan.trap_at, 200_000, true);
+        let watch: Vec<(u32, u32)> = accepted
+            .iter()
+            .filter(|a| matches!(a.2, Mode::Before | Mode::After))
+            .filter_map(|a| a.0.checked_sub(N_HOST).map(|f| (f, a.3)))
+            .collect();
+        let o = crate::interp::run_export_watch(&orig_mod, name, vals.clone(), plan.tape.clone(), plan.trap_at, 200_000, true, watch);
         let t = run_export(&inst_mod, name, vals, plan.tape.clone(), plan.trap_at, 400_000);
         let (o, t) = match (o, t) {
             (Ok(o), Ok(t)) => (o, t),
@@ -579,17 +597,15 @@ pub fn judge_exec(id: &str, sc: &Scenario, stats: &mut ExecStats) -> (Judged, Ru
             let p = Ev::Probe(*magic);
             match mode {
                 Mode::Before => {
-                    if let Some(pl) = finfo.plains.iter().find(|x| x.idx == *instr) {
-                        if let Some(e) = check_alternation(&t.trace, &Ev::Mark(pl.m_pre), &p, trapped, "before") {
-                            push("C16", Mismatch::new("before_after_timing", "before", e), &mut owned, &mut others);
-                        }
+                    let e1 = finfo.plains.iter().find(|x| x.idx == *instr).and_then(|pl| check_alternation(&t.trace, &Ev::Mark(pl.m_pre), &p, trapped, "before"));
+                    if let Some(e) = e1.or_else(|| virt_rule(&o, &t, crate::interp::V_EXEC, fi, *instr, &p, "before")) {
+                        push("C16", Mismatch::new("before_after_timing", "before", e), &mut owned, &mut others);
                     }
                 }
                 Mode::After => {
-                    if let Some(pl) = finfo.plains.iter().find(|x| x.idx == *instr) {
-                        if let Some(e) = check_alternation(&t.trace, &p, &Ev::Mark(pl.m_post), trapped, "after") {
-                            push("C16", Mismatch::new("before_after_timing", "after", e), &mut owned, &mut others);
-                        }
+                    let e1 = finfo.plains.iter().find(|x| x.idx == *instr).and_then(|pl| check_alternation(&t.trace, &p, &Ev::Mark(pl.m_post), trapped, "after"));
+                    if let Some(e) = e1.or_else(|| virt_rule(&o, &t, crate::interp::V_DONE, fi, *instr, &p, "after")) {
+                        push("C16", Mismatch::new("before_after_timing", "after", e), &mut owned, &mut others);
                     }
                 }
                 Mode::BlockEntry => {
